@@ -366,7 +366,8 @@ class RuleExtractor:
             raise TranslateError("%s: collapse validation: unrecognised cursor loop" % where)
         fb = inner[1].body
         atoms = []
-        if len(fb) == 2:
+        # any number of `if <atom> [or <atom>]: raise GenerationError(...)` tests, then the cursor step
+        while len(fb) > 1:
             test_st = fb[0]
             if not (isinstance(test_st, ast.If) and not test_st.orelse and is_raise_generr(test_st.body)):
                 raise TranslateError("%s: collapse validation: unrecognised test statement" % where)
